@@ -190,6 +190,11 @@ func (s *Store) Delete(ctx context.Context, target ocispec.Descriptor) error {
 		// delete the head of queue
 		danglings, err := s.delete(ctx, head)
 		if err != nil {
+			if errors.Is(err, errdef.ErrNotFound) && !content.Equal(head, target) {
+				// a successor that was never stored (e.g. a foreign layer)
+				// is not garbage to collect
+				continue
+			}
 			return err
 		}
 		if s.AutoGC {
